@@ -933,11 +933,13 @@ func ruleRenderVerbatim(c *Ctx) {
 			continue
 		}
 		for _, site := range s.Find(f, "ccmd") {
-			cc := callCommon(site)
-			format, isConst := constString(cc.Args[2])
-			args := varargValues(cc.Args[3])
-			ok := isConst && format == "%s" && len(args) == 1 && strings.HasPrefix(describe(args[0]), "(*strings.Builder).String(")
-			R.Ob(c.siteKey(site, "line sent as operand of \"%s\""), c.P.InstrPos(site), ok, "the command line is sent with format "+describe(cc.Args[2])+": characters such as '%' in values are not transmitted unchanged")
+			fv, format, isConst, args, okP := cmdParts(site)
+			ok := okP && isConst && format == "%s" && len(args) == 1 && strings.HasPrefix(describe(args[0]), "(*strings.Builder).String(")
+			fd := "?"
+			if fv != nil {
+				fd = describe(fv)
+			}
+			R.Ob(c.siteKey(site, "line sent as operand of \"%s\""), c.P.InstrPos(site), ok, "the command line is sent with format "+fd+": characters such as '%' in values are not transmitted unchanged")
 		}
 	}
 }
